@@ -181,6 +181,9 @@ def key_values(draw, n, kinds=("int", "str")):
     kind = draw(st.sampled_from(kinds))
     if kind == "int":
         vals = draw(st.lists(st.integers(-3, 60), min_size=n, max_size=n, unique=True))
+        if draw(st.integers(0, 5)) == 0:
+            # 64-bit identifiers beyond 2**53: an accidental upcast to float64 corrupts them
+            vals = [2 ** 60 + 1 + 3 * v for v in vals]
         return "int", vals
     base = draw(st.lists(st.integers(0, 60), min_size=n, max_size=n, unique=True))
     pre = draw(st.sampled_from(["k", "", "é"]))
@@ -192,6 +195,8 @@ def extra_column(draw, name, n):
     kind = draw(st.sampled_from(["int", "float", "bool", "obj", "datetime"]))
     if kind == "int":
         vals = draw(st.lists(st.integers(-5, 5), min_size=n, max_size=n))
+        if draw(st.integers(0, 4)) == 0:
+            vals = [2 ** 61 + 7 + v for v in vals]
     elif kind == "float":
         vals = draw(st.lists(st.sampled_from([0.5, 1.0, 2.25, -3.0, NAN]), min_size=n,
                              max_size=n))
